@@ -27,6 +27,7 @@ type Gen struct {
 	mapSorts map[string][2]string
 	Bounded  []string
 	sortGoType map[string]types.Type
+	symtab map[string]symEntry
 }
 
 func newGen(p *Prog, c *Contracts) *Gen {
